@@ -255,7 +255,7 @@ pub fn run(ctx: &Ctx) -> Report {
     let v = search(
         ctx,
         "session",
-        ctx.tier.pick(20_000, 200_000),
+        ctx.tier.pick(60_000, 600_000),
         || {
             let source = prop_oneof![
                 3 => seq::seq_case(W_PERSIST, 8).prop_map(Source::Library),
